@@ -21,47 +21,145 @@ YAML_TAG_PINS = [
 # also writes the flag into every case as "must_reject")
 MUST_REJECT = {"backedge", "selfloop", "rename-step", "bad-stage", "nooutput-stage", "bad-output", "bad-input-field",
                "bad-field", "lit-type", "missing-plugin", "missing-input", "short-ref", "root-ref", "self-stage-ref",
-               "unknown-root"}
+               "unknown-root", "expr-type", "backedge-hidden"}
 
 
 def slim_prepare(case):
-    return {k: v for k, v in case.items() if k not in ("dag", "output_schemas", "namespaces", "panic_text")}
+    return {k: v for k, v in case.items() if k not in ("dag", "output_schemas", "namespaces", "panic_text", "c16_observed",
+                                                       "seq_shared", "seq_fresh")}
+
+
+def count_shapes(case, chk):
+    """input distribution of the evidence: which shapes / sequence positions the run contained"""
+    for sh in case.get("shapes") or []:
+        chk.hist["shape:" + sh] = chk.hist.get("shape:" + sh, 0) + 1
+    if case.get("seq"):
+        k = "seq:position-%s" % case["seq"].get("index")
+        chk.hist[k] = chk.hist.get(k, 0) + 1
+        if case.get("seq_fresh_stable") is False:
+            chk.hist["seq:fresh-executors-disagree"] = chk.hist.get("seq:fresh-executors-disagree", 0) + 1
+    for lt in case.get("loop_types") or []:
+        chk.hist["loop-typed:" + str(lt.get("file"))] = chk.hist.get("loop-typed:" + str(lt.get("file")), 0) + 1
+
+
+def dag_diff_class(detail):
+    """Name of a model/implementation difference reported by `arcadrv prepare` (its `detail` object)."""
+    what = (detail or {}).get("what", "?")
+    if what == "edges":
+        missing, extra = detail.get("model_only") or [], detail.get("impl_only") or []
+        ends = lambda e: e.rsplit(" [", 1)[0]
+        if {ends(e) for e in missing} & {ends(e) for e in extra}:
+            return "edge-kind"
+        if missing and not extra:
+            return "missing-edge"
+        if extra and not missing:
+            return "extra-edge"
+        return "edges"
+    if what == "verdict":
+        return "verdict:%s-vs-%s" % (str(detail.get("impl", "?")).split(":")[0], str(detail.get("model", "?")).split(":")[0])
+    return str(what).replace(" ", "-")
 
 
 def mon_c10_prepare(case, verdict, chk):
-    """C10 on one prepared workflow: corrupted workflows must be rejected (never accepted, never a crash).
-    `C10:panic` is a regression detector: the model has no panic outcome (Arca.Props.C10.prepare_never_panics); the one
-    panic found by this slice (`!expr "$"`, index out of range in prepareExprDependencies) was fixed in /repo 1ef90ac."""
+    """C10 on one prepared workflow.
+    (1) corrupted workflows must be rejected (never accepted, never a crash).  `C10:panic` is a regression detector: the
+        model has no panic outcome (Arca.Props.C10.prepare_never_panics); the one panic found by this slice (`!expr "$"`, index
+        out of range in prepareExprDependencies) was fixed in /repo 1ef90ac.
+    (2) the graph of an accepted workflow is the graph its text implies: a `diff` verdict of `arcadrv prepare` (Lean model of
+        Prepare run on the generator's abstract form of the same text) comes with a concrete input - the workflow text, the
+        real DAG and the edges / nodes the two sides disagree on.
+    (3) every loop step is typed by ITS OWN sub-workflow: the element type of `outputs.success.data` in the output schema has
+        the fields of the success output of the sub-workflow file the step names.
+    (4) Prepare is a function of the workflow text and its context: the result on an executor that prepared other workflows
+        before equals the result on a fresh executor."""
     v = case.get("verdict")
     cor = case.get("corruption", "none")
+    count_shapes(case, chk)
     if v == "panic":
         chk.violation("C10:panic", "Prepare panicked instead of rejecting the workflow (%s): %s" % (cor, case.get("err", "")[:200]),
                       {"kind": "impl-counterexample", "case": slim_prepare(case), "panic_text": case.get("panic_text", "")[:3000]})
     elif v == "accepted" and (case.get("must_reject") or cor in MUST_REJECT):
         chk.violation("C10:accepted-corrupted:" + cor,
-                      "a workflow with a single-point corruption of class '%s' was accepted" % cor,
-                      {"kind": "impl-counterexample", "case": slim_prepare(case)})
+                      "a workflow with a single-point corruption of class '%s' (%s) was accepted%s" % (
+                          cor, case.get("corruption_detail"),
+                          " by an executor that had prepared %d other workflow(s) before" % case["seq"]["index"] if case.get("seq") else ""),
+                      {"kind": "impl-counterexample", "case": slim_prepare(case),
+                       "expected": "rejected before anything runs (C10: cyclic, dangling or ill-typed workflows are rejected)",
+                       "observed": "accepted", "model_verdict": verdict})
     elif v == "rejected" and cor == "none":
         # not a violation: the generator may produce a type-incompatible workflow; counted and reported in the evidence
         chk.hist["c10:uncorrupted-rejected:" + case.get("err_class", "?")] = \
             chk.hist.get("c10:uncorrupted-rejected:" + case.get("err_class", "?"), 0) + 1
         if len(chk.notes) < 6:
             chk.notes.append("uncorrupted workflow rejected (%s): %s" % (case.get("err_class"), case.get("err", "")[:160]))
-    elif v == "rejected" and cor in ("backedge", "selfloop") and case.get("err_class") not in ("cycle", "type", "schema"):
+    elif v == "rejected" and cor in ("backedge", "selfloop", "backedge-hidden") and case.get("err_class") not in ("cycle", "type", "schema"):
         chk.violation("C10:cycle-misreported:" + str(case.get("err_class")),
                       "a cyclic workflow was rejected for another reason than the cycle or a type error",
                       {"kind": "impl-counterexample", "case": slim_prepare(case)})
+    # (2) the DAG differential
+    if (verdict or {}).get("verdict") == "diff" and v != "panic":
+        d = verdict.get("detail") or {}
+        cls = dag_diff_class(d)
+        if d.get("what") in ("nodes", "edges", "item", "item count"):
+            fp = "C10:dag-differs-from-text:" + cls
+            what = ("the dependency graph of an accepted workflow is not the one its text implies (%s): in the graph the text implies "
+                    "but not in the real DAG: %s; in the real DAG only: %s" % (cls, d.get("model_only", d.get("model")), d.get("impl_only", d.get("impl"))))
+        else:
+            fp = "C10:verdict-differs-from-text:" + cls
+            what = "Prepare and the model of Prepare disagree on the verdict for this text: implementation %s, model %s" % (d.get("impl"), d.get("model"))
+        chk.violation(fp, what[:900],
+                      {"kind": "impl-counterexample", "case": slim_prepare(case), "real_dag": case.get("dag"),
+                       "expected": {"from": "Arca.Model.prepare on the abstract form of the same text (case.wf)",
+                                    "only_in_graph_the_text_implies": d.get("model_only", d.get("model")),
+                                    "shapes": case.get("shapes")},
+                       "observed": {"only_in_real_dag": d.get("impl_only", d.get("impl")), "verdict": v, "err": case.get("err")},
+                       "model_verdict": verdict})
+    # (3) loop steps typed by their own sub-workflow
+    for lt in case.get("loop_types") or []:
+        if lt.get("got_fields") != lt.get("expect_fields"):
+            chk.violation("C10:loop-typed-by-foreign-subworkflow",
+                          "output %s.%s carries the data of loop step %s (sub-workflow %s, success output fields %s) but its element type "
+                          "in the output schema has the fields %s" % (lt.get("output"), lt.get("key"), lt.get("step"), lt.get("file"),
+                                                                      lt.get("expect_fields"), lt.get("got_fields")),
+                          {"kind": "impl-counterexample", "case": slim_prepare(case), "loop": lt,
+                           "expected": {"element_fields": lt.get("expect_fields"), "from": "the success output of " + str(lt.get("file"))},
+                           "observed": {"element_fields": lt.get("got_fields"),
+                                        "output_schema": ((case.get("output_schemas") or {}).get(lt.get("output")) or {})}})
+            break
+    # (4) executor history
+    if case.get("seq_diff"):
+        sq = case.get("seq") or {}
+        chk.violation("C10:prepare-depends-on-executor-history:" + case["seq_diff"],
+                      "workflow %d of a sequence of %d prepared on ONE executor differs (%s) from the same text prepared on a fresh "
+                      "executor: shared %s %s, fresh %s %s" % (sq.get("index", -1) + 1, sq.get("n", 0), case["seq_diff"],
+                                                              (case.get("seq_shared") or {}).get("verdict"), (case.get("seq_shared") or {}).get("err_class"),
+                                                              (case.get("seq_fresh") or {}).get("verdict"), (case.get("seq_fresh") or {}).get("err_class")),
+                      {"kind": "impl-counterexample", "case": slim_prepare(case), "sequence_texts_in_order": case.get("seq_texts"),
+                       "differing_index": sq.get("index"), "on_shared_executor": case.get("seq_shared"),
+                       "on_fresh_executor": case.get("seq_fresh"),
+                       "expected": "equal verdict, DAG, output schemas and namespaces (Prepare is a function of the workflow text and its context)"})
+    elif case.get("seq_class_differs"):
+        chk.hist["c10:seq-error-class-varies"] = chk.hist.get("c10:seq-error-class-varies", 0) + 1
 
 
 def mon_c16_prepare(case, verdict, chk):
     """C16: repeated / permuted / renamed preparations must agree (verdict, DAG, output schemas, namespaces)."""
+    count_shapes(case, chk)
     if case.get("verdict") == "panic":
         return  # reported by C10
     if case.get("c16_equal") is False:
         what = ",".join(sorted({d.split(":", 1)[1] + "@" + d.split(":", 1)[0].rstrip("0123456789")
                                 for d in case.get("c16_diff", "").split(",") if ":" in d}))
-        chk.violation("C16:differs:" + what, "preparations of the same workflow disagree: " + case.get("c16_diff", ""),
-                      {"kind": "impl-counterexample", "case": slim_prepare(case)})
+        obs = case.get("c16_observed") or {}
+        rep = {"kind": "impl-counterexample", "case": slim_prepare(case),
+               "expected": "the same verdict and, up to generated identifiers, the same dependency graph, output schemas and namespaces",
+               "observed": obs}
+        if case.get("seq"):
+            # the first preparation ran on an executor that had prepared the earlier workflows of the sequence
+            rep["sequence_texts_in_order"] = case.get("seq_texts")
+            rep["differing_index"] = case["seq"].get("index")
+        chk.violation("C16:differs:" + what, "preparations of the same workflow text disagree (%s): first %s, %s %s" % (
+            case.get("c16_diff", ""), (obs.get("first") or {}).get("verdict"), obs.get("variant"), (obs.get("other") or {}).get("verdict")), rep)
     classes = [c for c in case.get("err_classes_seen", []) if c]
     if len(classes) > 1:
         chk.hist["c16:error-class-varies"] = chk.hist.get("c16:error-class-varies", 0) + 1
@@ -82,6 +180,10 @@ def prepare_tags(case):
         tags.append("nodes:%s" % ("<40" if n < 40 else "<80" if n < 80 else ">=80"))
     for v in case.get("c16_variants", []):
         tags.append("c16:" + v.split(":")[0].rstrip("0123456789"))
+    for sh in case.get("shapes") or []:
+        tags.append("shape:" + sh)
+    if case.get("seq"):
+        tags.append("seq:len%s:pos%s" % (case["seq"].get("n"), case["seq"].get("index")))
     return tags
 
 
@@ -100,12 +202,18 @@ def S_prepare(monitor, seed_off=0):
             "sample": prepare_sample, "tags": prepare_tags}
 
 
-PREPARE_RULE = ("generated workflows (plugin steps over the scripted plugin, optional foreach step with a sub-workflow file; "
-                "!oneof / !ordisabled / !wait-optional / !soft-optional, enabled, stop_if, wait_for, nested lists and maps) and "
-                "single-point corruptions (back-edge, self-loop, renamed step, unknown stage / stage without outputs / unknown "
-                "output / unknown output field / unknown input field, literal of the wrong type, missing plugin / step / input, "
-                "`$`, `$.steps.S`, self stage reference, group-node collision); distinct = distinct workflow text; non-trivial = "
-                "corrupted, or uses a tag, or has more than one step")
+PREPARE_RULE = ("generated workflows (plugin steps over the scripted plugin, 0-3 foreach steps over different and equal sub-workflow "
+                "files with different item and output shapes; !oneof / !ordisabled / !wait-optional / !soft-optional, enabled, "
+                "stop_if, wait_for, nested lists and maps; expressions with several references (binary operators, function "
+                "arguments) next to another reference of the same node to the same producer; wait-optional + soft-optional + "
+                "plain reference to one source in one object; optional expressions with several sources; a typed workflow input "
+                "fed into the typed plugin fields) and single-point corruptions (back-edge, back-edge hidden in a later reference "
+                "of a multi-reference expression, self-loop, renamed step, unknown stage / stage without outputs / unknown output "
+                "/ unknown output field / unknown input field, literal of the wrong type, expression of the wrong type, missing "
+                "plugin / step / input, `$`, `$.steps.S`, self stage reference, group-node collision); the first ~50 cases of "
+                "every run are one targeted case per shape; sequences of 2-4 different workflows over the same names (same step "
+                "ids, same input field with different types) prepared on ONE executor, each compared with fresh executors; "
+                "distinct = distinct workflow text; non-trivial = corrupted, or uses a tag, or has more than one step")
 
 SPEC_C10 = {
     "module": "Arca.Props.C10",
@@ -121,6 +229,11 @@ SPEC_C10 = {
         "Arca.Props.C10.prepare_rejects_cycle",
         "Arca.Props.C10.prepare_rejects_root_ref",
         "Arca.Props.C10.prepare_never_panics",
+        "Arca.Props.C10.prepare_every_ref_connected",
+        "Arca.Props.C10.prepare_duplicate_ref_does_not_stop",
+        "Arca.Props.C10.prepare_optional_edges",
+        "Arca.Props.C10.prepare_tagged_fields_distinct_groups",
+        "Arca.Props.C10.prepare_wait_and_soft_on_same_source",
     ],
     "pins": PREPARE_PINS,
     "streams": [S_prepare(mon_c10_prepare)],
@@ -138,6 +251,11 @@ SPEC_C16 = {
         "Arca.Props.C16.prepare_rename_ops",
         "Arca.Props.C16.prepare_rename",
         "Arca.Props.C16.prepare_rename_fail_partial",
+        "Arca.Props.C16.object_key_order_ops",
+        "Arca.Props.C16.oneof_option_order_ops",
+        "Arca.Props.C16.prepare_ops_perm_same_graph",
+        "Arca.Props.C16.output_key_order_ops",
+        "Arca.Props.C16.prepare_output_key_order",
     ],
     "pins": PREPARE_PINS,
     "streams": [S_prepare(mon_c16_prepare, seed_off=500)],
